@@ -24,8 +24,12 @@ META = {
              "Tree.AddSignature cascade = union with the node's real leaves, MergeSparse total for any input with exact flags and "
              "verified set union (monotone, idempotent, order irrelevant), AddSignature, no panic for any reachable state and input, "
              "clone/derive frame, node ids fit 2 bytes iff n <= 32768 (sparse round trip refuted for 32769 keys, replayed on the real "
-             "code: known finding). Partial for the tree: Merge's exact bits/flags and the positive sparse round trip / cover property "
-             "of SparseIndices are decided by the monitor C13Blsm and the correspondence run, not by a theorem. "
+             "code: known finding). Also full for the tree: Merge of two proofs over the same keys = exact union with exact flags "
+             "(C13Bls_merge_spec), SparseIndices = the maximal set nodes, each once, a disjoint cover of the bit set "
+             "(C13Bls_sparse_indices_maximal/_cover), positive sparse round trip for n <= 32768 with the same ids afterwards "
+             "(C13Bls_sparse_roundtrip/_ids); reachable proofs are closed and their sparse form is canonical (a function of the bit set). "
+             "model_satisfies_monitor is a theorem for all operation sequences over key sets of at most 32768 keys "
+             "(C13Bls_model_satisfies_monitor; the guard is shown necessary). "
              "Full for BLS finalized proofs (Properties/C13BlsFinal.v): for every n <= 65535, every non-empty main signer set and every list "
              "of rest blocks of any sizes and order with distinct sign contents, pairwise disjoint blocks round-trip through Finalize + "
              "ValidateFinalizedProof to exactly their signer sets with allSignaturesUnique = true (list and bit-mask form); Finalize is "
@@ -836,6 +840,21 @@ def run_tree(c, proved):
         cases = [rp["tree_case"]]
     else:
         cases = [g.case() for _ in range(120 if c.tier == "quick" else 2000)]
+        # witnesses of Proofs/BlsTreeWitness2.v replayed on the real code (also compared with the model and judged by the
+        # monitor like every other case): C13Bls_merge_superset_strict_refuted (two empty proofs: WasStrictSuperset = true)
+        # and the n = 5 Merge example with exact flags (ex5_merge)
+        def agg(l):
+            return {"k": 0, "m": 0, "l": l}
+        cases.append({"_n": 5, "_fixed": [[0], [0], [1, 0, 1]], "ops": [
+            {"op": "new", "r": 0, "n": 5, "msg": 0, "hash": 0}, {"op": "new", "r": 1, "n": 5, "msg": 0, "hash": 0},
+            {"op": "merge", "r": 0, "o": 1}]})
+        cases.append({"_n": 5, "_fixed": [[0], [0], [0, 0], [0, 0, 1], [1, 1, 0, 1, 4], [1, 1, 0, 0, 1, 4], [1, 0, 0, 0, 1, 4],
+                                          [1, 1, 1, 0, 1, 4], [8, 1, 13, 1]], "ops": [
+            {"op": "new", "r": 0, "n": 5, "msg": 0, "hash": 0}, {"op": "new", "r": 1, "n": 5, "msg": 0, "hash": 0},
+            {"op": "add", "r": 0, "sig": agg([0]), "key": [0]}, {"op": "add", "r": 0, "sig": agg([1]), "key": [1]},
+            {"op": "msparse", "r": 1, "hash": 0, "ents": [{"id": [0, 13], "sig": agg([4])}, {"id": [0, 1], "sig": agg([1])}]},
+            {"op": "merge", "r": 0, "o": 1}, {"op": "merge", "r": 0, "o": 1}, {"op": "merge", "r": 1, "o": 0},
+            {"op": "sparse", "r": 0}]})
     lines = [json.dumps(strip(cs)) for cs in cases]
     run_big = "tree_case" not in rp
     if run_big:
@@ -855,6 +874,10 @@ def run_tree(c, proved):
         return {}
     bigobs = allobs[len(cases):]
     allobs = allobs[:len(cases)]
+    fixed_bad = [(i, cs["_fixed"], ob) for i, (cs, ob) in enumerate(zip(cases, allobs)) if "_fixed" in cs and ob != cs["_fixed"]]
+    for i, want, ob in fixed_bad[:1]:
+        c.report("bls-tree-witness-replay", "a Coq witness (Proofs/BlsTreeWitness2.v) does not replay on the real code: expected %s, observed %s"
+                 % (want, ob), {"tree_case": strip(cases[i]), "expected": want, "observed": ob})
     corr_bad, mon_bad, model_mon_bad = [], [], []
     shard = 120
     for si in range(0, len(cases), shard):
@@ -951,6 +974,8 @@ def run_tree(c, proved):
         "tree_constructor_panics_observed": panics,
         "tree_correspondence_disagreements": len(corr_bad),
         "tree_monitor_failures_on_impl": len(mon_bad),
+        "tree_coq_witnesses_replayed_on_impl": sum(1 for cs in cases if "_fixed" in cs),
+        "tree_coq_witness_replay_failures": len(fixed_bad),
     }
     cov.update(big_cov)
     return cov
